@@ -3,6 +3,7 @@ package checks
 import (
 	"fmt"
 	"os"
+	"path/filepath"
 	"strings"
 	"time"
 	"unicode/utf8"
@@ -337,6 +338,10 @@ func enumC02(tier string, e *engine.Emitter) {
 					if a != b {
 						e.Emit(engine.Case{Kind: "c02cli:" + bin, Leg: "cli/" + bin, A: a, B: b, X: fl})
 					}
+					if len(a) < 1000 && len(b) < 1000 {
+						// the diff goes to a file that already holds an older, longer diff; equal inputs included
+						e.Emit(engine.Case{Kind: "c02cli:" + bin, Leg: "cli-o/" + bin, A: a, B: b, X: strings.TrimSpace(fl + " @o")})
+					}
 				}
 			}
 		}
@@ -467,9 +472,29 @@ func runC02CLI(c *engine.Case) engine.Result {
 	defer os.RemoveAll(dir)
 	fa := cli.WriteFile(dir, "a.json", c.A)
 	fb := cli.WriteFile(dir, "b.json", c.B)
-	flags := strings.Fields(c.X)
-	out := cli.Run(dir, cli.Bin(bin), append(append([]string{}, flags...), fa, fb), nil)
+	toFile := strings.Contains(c.X, "@o")
+	flags := strings.Fields(strings.ReplaceAll(c.X, "@o", ""))
+	o = impl.Options(flagsToOptName(strings.Join(flags, " ")))
+	dfile := filepath.Join(dir, "d.diff")
+	args := append([]string{}, flags...)
+	if toFile {
+		os.WriteFile(dfile, []byte(strings.Repeat("@ [\"stale\"]\n- \"diff from an earlier run\"\n", 40)), 0644)
+		args = append(args, "-o", dfile)
+	}
+	out := cli.Run(dir, cli.Bin(bin), append(args, fa, fb), nil)
 	res.Transitions++
+	if toFile {
+		if out.Stdout != "" {
+			res.Violation = fmt.Sprintf("jd -o printed to stdout: %q", out.Stdout)
+			return res
+		}
+		b, err := os.ReadFile(dfile)
+		if err != nil {
+			res.Violation = "jd -o did not leave the output file in place: " + err.Error()
+			return res
+		}
+		out.Stdout = string(b)
+	}
 	var want string
 	if p := impl.Guard(func() { want = impl.Read(c.A).Diff(impl.Read(c.B), o.Opts...).Render() }); p != "" {
 		res.Violation = "library: " + p
@@ -484,8 +509,16 @@ func runC02CLI(c *engine.Case) engine.Result {
 	switch {
 	case out.Timeout:
 		res.Violation = "CLI did not terminate"
-	case want == "" && out.Exit == 0:
+	case want == "" && out.Exit == 0 && out.Stdout == "":
 		res.Bucket += "/equal"
+		if toFile {
+			// the (empty) diff in the file applies and changes nothing
+			back := cli.Run(dir, cli.Bin(bin), append(append([]string{"-p"}, flags...), dfile, fa), nil)
+			got, perr := ref.Parse(back.Stdout)
+			if back.Exit != 0 || perr != nil || !ref.Equal(got, ref.MustParse(c.A), o.Reading) {
+				res.Violation = fmt.Sprintf("jd -p applied to the -o file written for equal inputs: exit %d, output %q", back.Exit, clip(back.Stdout))
+			}
+		}
 		return res
 	case out.Exit != 1:
 		res.Violation = fmt.Sprintf("jd %s a b: exit status %d, stderr %q", c.X, out.Exit, clip(firstLine(out.Stderr)))
@@ -495,7 +528,7 @@ func runC02CLI(c *engine.Case) engine.Result {
 	if res.Violation != "" {
 		return res
 	}
-	fd := cli.WriteFile(dir, "d.diff", out.Stdout)
+	fd := cli.WriteFile(dir, "d2.diff", out.Stdout)
 	back := cli.Run(dir, cli.Bin(bin), append(append([]string{"-p"}, flags...), fd, fa), nil)
 	res.Transitions++
 	got, perr := ref.Parse(back.Stdout)
